@@ -132,3 +132,32 @@ let () =
       if kind = "name" then run_wf kio_name nn_scmp (int_of_string t) line
       else run_wf kio_num nn_zcmp (int_of_string t) line
     | _ -> "?args")
+
+(* attachment jobs: attjob <map> <removes> <adds> <copies>
+   map     : k=rid,k=rid | -            (keys h<hex of UTF-8>)
+   removes : k,k | -
+   adds    : <0|1>:k=rid,... | -        (1 = --replace)
+   copies  : prefix/map;prefix/map | -  (prefix = h<hex>, map as above)
+   out     : ok k=rid,...  |  refused k,k *)
+let split_nonempty c s = if s = "-" || s = "" then [] else String.split_on_char c s
+let parse_amap (s : string) : (n list * z) list =
+  List.map (fun kv -> match String.index_opt kv '=' with
+    | Some e -> (kio_name.pk (String.sub kv 0 e), z_of_int (int_of_string (String.sub kv (e + 1) (String.length kv - e - 1))))
+    | None -> failwith "amap") (split_nonempty ',' s)
+let () =
+  register "attjob" (fun args -> match args with
+    | [m; removes; adds; copies] ->
+      let removes = List.map kio_name.pk (split_nonempty ',' removes) in
+      let adds = List.map (fun a ->
+        let repl = a.[0] = '1' in
+        match parse_amap (String.sub a 2 (String.length a - 2)) with
+        | [(k, rid)] -> ((repl, k), rid)
+        | _ -> failwith "add") (split_nonempty ',' adds) in
+      let copies = List.map (fun c ->
+        match String.index_opt c '/' with
+        | Some e -> (kio_name.pk (String.sub c 0 e), parse_amap (String.sub c (e + 1) (String.length c - e - 1)))
+        | None -> failwith "copy") (split_nonempty ';' copies) in
+      (match att_job removes adds copies (parse_amap m) with
+       | AttOk m' -> "ok " ^ show_pairs kio_name m'
+       | AttRefused ks -> "refused " ^ String.concat "," (List.map kio_name.sk ks))
+    | _ -> "?args")
